@@ -9,6 +9,7 @@ package qtp
 
 import (
 	"context"
+	"crypto/sha256"
 	"encoding/hex"
 	"fmt"
 	"io"
@@ -535,8 +536,22 @@ func (rn *runner) GenOp(r *vh.Rand, i int) string {
 			}
 			return fmt.Sprintf("spec %s %d %s %s %s", base, r.Intn(2), sup, list, pins)
 		}
-		if r.Chance(22) {
+		// the life of one spec VALUE: inspections, edits of the suppression list / the parameter list / the
+		// randomisation flag between dials, and dials whose first connection attempt is answered with a Version
+		// Negotiation packet (UTransport.doDial then creates a second connection from the same spec)
+		switch r.Pick(42, 16, 8, 7, 7, 5, 15) {
+		case 1:
 			return "tpids"
+		case 2:
+			return "setsup " + rn.genLifeSup(r)
+		case 3:
+			return "addsup " + rn.genLifeSup(r)
+		case 4:
+			return "addparam " + genSafeExtra(r)
+		case 5:
+			return fmt.Sprintf("setrand %d", r.Intn(2))
+		case 6:
+			return fmt.Sprintf("dialvn %d", r.Intn(2))
 		}
 		return "dial"
 	default:
@@ -560,6 +575,32 @@ func (rn *runner) GenOp(r *vh.Rand, i int) string {
 		}
 		return fmt.Sprintf("dialdist %s %d %d", builtinNames[r.Intn(7)], n, per*fact(n))
 	}
+}
+
+// genLifeSup: a suppression list for an edit of the current spec: ids the built-in lists and the generated ones carry.
+func (rn *runner) genLifeSup(r *vh.Rand) string {
+	if r.Chance(12) {
+		return "-"
+	}
+	var ids []uint64
+	for k := r.Pick(45, 35, 20) + 1; k > 0; k-- {
+		ids = append(ids, []uint64{27, 32, 15, 1, 4, 0x3127, 0x4752, 0xff73db, 0x2ab2, 99, 12, 14, 58, 8, 9, 11, 5, 6, 7, 7777}[r.Intn(20)])
+	}
+	return fmtIDs(ids)
+}
+
+// genSafeExtra: one more parameter for the spec's list that PopulateFromUQUIC accepts and that keeps the list's
+// recognised integer ids unique (a fingerprinter's view of a repeated id depends on the order).
+func genSafeExtra(r *vh.Rand) string {
+	switch r.Pick(40, 25, 20, 15) {
+	case 0:
+		return fmt.Sprintf("F%d=%s", []uint64{7777, 0x4752, 0x3128, 99, 20000 + uint64(r.Intn(50))}[r.Intn(5)], hx(r.Bytes(r.Intn(5))))
+	case 1:
+		return fmt.Sprintf("G%d=%s", genGreaseID(r), hx(r.Bytes(r.Intn(4))))
+	case 2:
+		return fmt.Sprintf("G?%d", r.Intn(6))
+	}
+	return "Q"
 }
 
 func fact(n int) int {
@@ -695,23 +736,90 @@ func (rn *runner) Exec(op string) string {
 		if rn.spec == nil {
 			return "skip"
 		}
-		return "ids=" + fmtIDs(rn.spec.TransportParameterIDs())
-	case "dial":
+		ids := rn.spec.TransportParameterIDs()
+		left := "-"
+		if e := qtpExt(rn.spec); e != nil {
+			left = tokensOf(e.TransportParameters)
+		}
+		return "ids=" + fmtIDs(ids) + " left=" + left
+	case "setsup", "addsup":
+		if len(f) != 2 {
+			return "bad-op"
+		}
+		if rn.spec == nil || qtpExt(rn.spec) == nil {
+			return "skip"
+		}
+		ids := parseIDs(f[1])
+		if f[0] == "setsup" {
+			rn.spec.SuppressTransportParameters = ids
+		} else {
+			rn.spec.SuppressTransportParameters = append(rn.spec.SuppressTransportParameters, ids...)
+		}
+		return fmt.Sprintf("sup=%s list=%s", fmtIDs(rn.spec.SuppressTransportParameters), tokensOf(qtpExt(rn.spec).TransportParameters))
+	case "addparam":
+		if len(f) != 2 {
+			return "bad-op"
+		}
+		if rn.spec == nil || qtpExt(rn.spec) == nil {
+			return "skip"
+		}
+		tp := parseToken(f[1])
+		if tp == nil {
+			return "bad-op"
+		}
+		ext := qtpExt(rn.spec)
+		ext.TransportParameters = append(ext.TransportParameters, tp)
+		return fmt.Sprintf("in=%s list=%s", canonOf(tp), tokensOf(ext.TransportParameters))
+	case "setrand":
+		if len(f) != 2 || (f[1] != "0" && f[1] != "1") {
+			return "bad-op"
+		}
 		if rn.spec == nil {
 			return "skip"
 		}
+		rn.spec.RandomizeTransportParameters = f[1] == "1"
+		return "rand=" + f[1]
+	case "dial", "dialvn":
+		if rn.spec == nil {
+			return "skip"
+		}
+		vn := 0
+		if f[0] == "dialvn" {
+			if len(f) != 2 || (f[1] != "0" && f[1] != "1") {
+				return "bad-op"
+			}
+			vn = 1 + int(f[1][0]-'0')
+		} else if len(f) != 1 {
+			return "bad-op"
+		}
 		snap := snapshotSpec(rn.spec) // the spec's extension values as they are BEFORE the dial
-		d := rn.dial(rn.spec)
-		if d.err != "" {
-			return d.err
+		ds, derr := rn.dial(rn.spec, vn)
+		if derr != "" {
+			return derr
 		}
-		ov := "?"
-		if d.hasOv {
-			ov = hx(d.ov)
+		// the LAST connection attempt is printed with the plain keys; the abandoned first attempt of a dial that was
+		// answered with Version Negotiation follows with every key prefixed by `1`
+		var parts []string
+		for i := len(ds) - 1; i >= 0; i-- {
+			d := ds[i]
+			ov := "?"
+			if d.hasOv {
+				ov = hx(d.ov)
+			}
+			one := fmt.Sprintf("cs=%s exts=%s sexts=%s qtp=%s scid=%s frames=%s fp=%s rec=%s ov=%s snap=%s ssni=%s csni=%s sks=%s xb=%s wks=%s kx=%s rnd=%s ver=%x after=%s", fmtU16(d.cs), fmtU16(d.exts),
+				fmtU16(specExtTypes(rn.spec)), hx(d.qtp), hx(d.scid), fmtIDs(d.frames), d.fp, d.rec, ov,
+				snap.bodies, hx([]byte(snap.sni)), hx([]byte(dialServerName)), fmtU16(snap.ksGroups), wireBodies(d.bodies, snap.types), keyShareGroups(d.bodies),
+				keyShareKeys(d.bodies), hx(d.random), d.version, tokensOf(qtpExt(rn.spec).TransportParameters))
+			if i != len(ds)-1 {
+				ws := strings.Fields(one)
+				for k := range ws {
+					ws[k] = "1" + ws[k]
+				}
+				one = strings.Join(ws, " ")
+			}
+			parts = append(parts, one)
 		}
-		return fmt.Sprintf("cs=%s exts=%s sexts=%s qtp=%s scid=%s frames=%s fp=%s rec=%s ov=%s snap=%s ssni=%s csni=%s sks=%s xb=%s wks=%s after=%s", fmtU16(d.cs), fmtU16(d.exts),
-			fmtU16(specExtTypes(rn.spec)), hx(d.qtp), hx(d.scid), fmtIDs(d.frames), d.fp, d.rec, ov,
-			snap.bodies, hx([]byte(snap.sni)), hx([]byte(dialServerName)), fmtU16(snap.ksGroups), wireBodies(d.bodies, snap.types), keyShareGroups(d.bodies), tokensOf(qtpExt(rn.spec).TransportParameters))
+		return strings.Join(parts, " ")
 	case "shufdist":
 		if len(f) != 3 {
 			return "bad-op"
@@ -761,10 +869,11 @@ func (rn *runner) Exec(op string) string {
 			}
 			qtpExt(&spec).TransportParameters = ps
 			spec.RandomizeTransportParameters = true
-			d := rn.dial(&spec)
-			if d.err != "" {
-				return d.err
+			ds, derr := rn.dial(&spec, 0)
+			if derr != "" {
+				return derr
 			}
+			d := ds[0]
 			perm, ok := idsOfBody(d.qtp)
 			if !ok || len(perm) != n {
 				return "E:wire"
@@ -886,6 +995,8 @@ type dialResult struct {
 	ov     []byte // the connection's ClientOverride
 	hasOv  bool
 	bodies []extBody // every extension of the ClientHello, in wire order
+	random  []byte   // ClientHello.random
+	version uint32   // QUIC version of the Initial packets
 }
 
 type extBody struct {
@@ -981,6 +1092,17 @@ func keyShareGroups(bs []extBody) string {
 	return "-"
 }
 
+// keyShareKeys: a digest of the key_share extension body (the public keys of this connection attempt), `-` if absent.
+func keyShareKeys(bs []extBody) string {
+	for _, b := range bs {
+		if b.typ == 51 && len(b.body) > 6 { // more than a list of empty shares
+			d := sha256.Sum256(b.body)
+			return hx(d[:12])
+		}
+	}
+	return "-"
+}
+
 // applyPins rewrites extension contents of a freshly built spec: sni=<name>; alpn=<p|q>; grp=<k> (rotate the
 // supported groups by k); ks=rev (reverse the key shares).
 func applyPins(spec *quic.QUICSpec, pins string) bool {
@@ -1054,22 +1176,65 @@ func (t *recTrace) RecordEvent(ev qlogwriter.Event) {
 		int64(ps.MaxDatagramFrameSize), dm, hx(ps.InitialSourceConnectionID.Bytes()))
 }
 
-func (rn *runner) dial(spec *quic.QUICSpec) (res dialResult) {
+// recTraces hands every connection attempt of a dial (doDial asks the Tracer once per attempt) its own recorder.
+type recTraces struct {
+	mu sync.Mutex
+	l  []*recTrace
+}
+
+func (ts *recTraces) next() *recTrace {
+	ts.mu.Lock()
+	defer ts.mu.Unlock()
+	t := &recTrace{}
+	ts.l = append(ts.l, t)
+	return t
+}
+
+func (ts *recTraces) rec(i int) string {
+	ts.mu.Lock()
+	defer ts.mu.Unlock()
+	if i >= len(ts.l) {
+		return "-"
+	}
+	ts.l[i].mu.Lock()
+	defer ts.l[i].mu.Unlock()
+	if ts.l[i].rec == "" {
+		return "-"
+	}
+	return ts.l[i].rec
+}
+
+// dial runs one UTransport.Dial against the silent socket and returns what every connection attempt put on the
+// wire. vn = 0: one attempt. vn = 1: the client offers [Version1, Version2] and the first flight is answered with a
+// Version Negotiation packet listing only Version2; vn = 2: [Version2, Version1], only Version1 is offered back.
+// UTransport.doDial then abandons the connection and creates a second one (from the same QUICSpec) whose flight is
+// collected as the second attempt.
+func (rn *runner) dial(spec *quic.QUICSpec, vn int) (out []dialResult, errs string) {
 	if rn.server == nil {
 		s, err := net.ListenUDP("udp", &net.UDPAddr{IP: net.IPv4(127, 0, 0, 1)})
 		if err != nil {
-			return dialResult{err: "E:listen"}
+			return nil, "E:listen"
 		}
 		rn.server = s
 	}
 	clientConn, err := net.ListenUDP("udp", &net.UDPAddr{IP: net.IPv4(127, 0, 0, 1)})
 	if err != nil {
-		return dialResult{err: "E:listen"}
+		return nil, "E:listen"
 	}
 	tr := &quic.UTransport{Transport: &quic.Transport{Conn: clientConn}, QUICSpec: spec}
-	trace := &recTrace{}
+	traces := &recTraces{}
 	quic.VerifTakeOwnOverride()
-	conf := &quic.Config{Tracer: func(context.Context, bool, quic.ConnectionID) qlogwriter.Trace { return trace }}
+	conf := &quic.Config{Tracer: func(context.Context, bool, quic.ConnectionID) qlogwriter.Trace { return traces.next() }}
+	versions := []protocol.Version{protocol.Version1}
+	switch vn {
+	case 1:
+		versions = []protocol.Version{protocol.Version1, protocol.Version2}
+	case 2:
+		versions = []protocol.Version{protocol.Version2, protocol.Version1}
+	}
+	if vn != 0 {
+		conf.Versions = versions
+	}
 	ctx, cancel := context.WithTimeout(context.Background(), 40*time.Second)
 	done := make(chan string, 1)
 	go func() {
@@ -1089,13 +1254,13 @@ func (rn *runner) dial(spec *quic.QUICSpec) (res dialResult) {
 		cancel()
 		select {
 		case p := <-done:
-			if p != "" && res.err == "" {
-				res.err = p
+			if p != "" && errs == "" {
+				errs = p
 			}
 		case <-time.After(10 * time.Second):
-			res.err = "E:dialhang"
+			errs = "E:dialhang"
 		}
-		if res.err == "PANIC" || res.err == "E:dialhang" {
+		if errs == "PANIC" || errs == "E:dialhang" {
 			clientConn.Close() // the panic unwound through Transport.dial with its mutex held: Close would block forever
 			return
 		}
@@ -1103,10 +1268,34 @@ func (rn *runner) dial(spec *quic.QUICSpec) (res dialResult) {
 		clientConn.Close()
 	}()
 
+	for attempt, v := range versions {
+		res, vnReply, e := rn.collect(spec, clientConn, done, v, attempt == 0)
+		if e != "" {
+			return nil, e
+		}
+		res.ov, res.hasOv = quic.VerifTakeOwnOverride()
+		res.rec = traces.rec(attempt)
+		res.version = uint32(v)
+		out = append(out, res)
+		if attempt == len(versions)-1 {
+			break
+		}
+		// answer with Version Negotiation: only the client's other version is on offer
+		if _, err := rn.server.WriteTo(wire.ComposeVersionNegotiation(vnReply.dst, vnReply.src, []protocol.Version{versions[1]}), clientConn.LocalAddr()); err != nil {
+			return nil, "E:vnsend"
+		}
+	}
+	return out, ""
+}
+
+type vnAddr struct{ dst, src protocol.ArbitraryLenConnectionID }
+
+// collect reads the client's Initial flight of QUIC version v until the ClientHello is complete.
+func (rn *runner) collect(spec *quic.QUICSpec, clientConn *net.UDPConn, done chan string, v protocol.Version, first bool) (res dialResult, reply vnAddr, errs string) {
 	from := clientConn.LocalAddr().String()
-	var asm reassembler
+	asm := reassembler{only: v}
 	gci := clienthellod.GatherClientInitialsWithDeadline(time.Now().Add(time.Minute))
-	chdOK := true
+	chdOK := first
 	frameSet := map[uint64]bool{}
 	deadline := time.Now().Add(20 * time.Second)
 	buf := make([]byte, 4096)
@@ -1118,12 +1307,12 @@ func (rn *runner) dial(spec *quic.QUICSpec) (res dialResult) {
 			case p := <-done:
 				done <- p
 				if p != "" {
-					return dialResult{err: p}
+					return dialResult{}, reply, p
 				}
 			default:
 			}
 			if time.Now().After(deadline) {
-				return dialResult{err: "E:timeout"}
+				return dialResult{}, reply, "E:timeout"
 			}
 			continue
 		}
@@ -1131,12 +1320,17 @@ func (rn *runner) dial(spec *quic.QUICSpec) (res dialResult) {
 			continue // a straggler of an earlier dial
 		}
 		dg := append([]byte(nil), buf[:n]...)
+		before := len(asm.pns)
 		scid, fts, perr := asm.addDatagram(dg)
 		if perr != "" {
-			return dialResult{err: perr}
+			return dialResult{}, reply, perr
+		}
+		if len(asm.pns) == before {
+			continue // nothing of this attempt in the datagram (a retransmission of the abandoned attempt)
 		}
 		if res.scid == nil {
 			res.scid = scid
+			reply = vnAddr{dst: protocol.ArbitraryLenConnectionID(scid), src: protocol.ArbitraryLenConnectionID(asm.dcid)}
 		}
 		for _, t := range fts {
 			frameSet[t] = true
@@ -1150,15 +1344,17 @@ func (rn *runner) dial(spec *quic.QUICSpec) (res dialResult) {
 		if ch := asm.clientHello(); ch != nil {
 			cs, exts, body, bodies, ok := splitClientHello(ch)
 			if !ok {
-				return dialResult{err: "E:chparse"}
+				return dialResult{}, reply, "E:chparse"
 			}
 			res.cs, res.exts, res.qtp, res.bodies = cs, exts, body, bodies
+			res.random = append([]byte{}, ch[6:38]...)
 			break
 		}
 	}
 	// Only the first flight is a fingerprint: if a datagram was lost or a retransmission slipped in, the
-	// packet numbers are not first, first+1, … and frame types / fingerprint are not reported.
-	firstFlight := true
+	// packet numbers are not first, first+1, … and frame types / fingerprint are not reported. The flight of a
+	// connection re-created after Version Negotiation continues the packet numbers and is not a reference flight.
+	firstFlight := first
 	for i, pn := range asm.pns {
 		if pn != int64(spec.InitialPacketSpec.InitPacketNumber)+int64(i) {
 			firstFlight = false
@@ -1172,26 +1368,21 @@ func (rn *runner) dial(spec *quic.QUICSpec) (res dialResult) {
 		res.frames = append(res.frames, t)
 	}
 	sort.Slice(res.frames, func(i, j int) bool { return res.frames[i] < res.frames[j] })
-	res.ov, res.hasOv = quic.VerifTakeOwnOverride()
-	trace.mu.Lock()
-	res.rec = trace.rec
-	trace.mu.Unlock()
-	if res.rec == "" {
-		res.rec = "-"
-	}
 	res.fp = "-"
 	if chdOK && gci.Completed() {
 		if fp, err := clienthellod.GenerateQUICFingerprint(gci); err == nil {
 			res.fp = fp.HexID
 		}
 	}
-	return res
+	return res, reply, ""
 }
 
 // reassembler decrypts client Initial packets (RFC 9001 §5) and collects their CRYPTO frames.
 type reassembler struct {
 	chunks map[uint64][]byte
-	pns    []int64 // packet numbers of the Initial packets seen, in arrival order
+	pns    []int64          // packet numbers of the Initial packets seen, in arrival order
+	only   protocol.Version // Initial packets of other QUIC versions are skipped (0: take all)
+	dcid   []byte           // destination connection ID of the first Initial packet taken
 }
 
 func (a *reassembler) addDatagram(dg []byte) (scid []byte, frameTypes []uint64, perr string) {
@@ -1205,8 +1396,11 @@ func (a *reassembler) addDatagram(dg []byte) (scid []byte, frameTypes []uint64, 
 			return nil, nil, "E:hdr"
 		}
 		data = rest
-		if hdr.Type != protocol.PacketTypeInitial {
+		if hdr.Type != protocol.PacketTypeInitial || (a.only != 0 && hdr.Version != a.only) {
 			continue
+		}
+		if a.dcid == nil {
+			a.dcid = append([]byte{}, hdr.DestConnectionID.Bytes()...)
 		}
 		if scid == nil {
 			scid = append([]byte{}, hdr.SrcConnectionID.Bytes()...)
